@@ -88,6 +88,10 @@ func (p *regExpParser) scanGroup() {
 		if str[0] == '?' {
 			if str[1] == '=' || str[1] == '!' {
 				p.error(-1, "re2: Invalid (%s) <lookahead>", p.str[p.chrOffset:p.chrOffset+2])
+			} else if str[1] != ':' {
+				// (?i) (?P<name> (?<name> ... are re2 syntax, not JavaScript
+				p.error(-1, "Invalid group")
+				p.invalid = true
 			}
 		}
 	}
